@@ -17,7 +17,7 @@ class PathAbort(BaseException):
     """engine control flow: abandon the current path (not an error, not a result)"""
 
 
-class Unsupported(Exception):
+class Unsupported(BaseException):
     """the code under execution did something with a symbolic value that the engine does not encode"""
 
 
